@@ -495,7 +495,9 @@ result_t DateTimeDataType::writeSymbols(size_t offset, size_t length, istringstr
   size_t start = 0, count = length;
   bool remainder = count == REMAIN_LEN && hasFlag(ADJ);
   int incr = 1;
-  unsigned int value = 0, last = 0, lastLast = 0;
+  unsigned int value = 0, last = 0, lastLast = 0, hour = 0;
+  bool hadNull = false, hadValue = false;
+  const bool combined = (m_hasDate && !m_hasTime && length == 2) || (m_hasTime && !m_hasDate && hasFlag(SPE));
   string token;
 
   if (hasFlag(REV)) {  // reverted binary representation (most significant byte first)
@@ -529,9 +531,17 @@ result_t DateTimeDataType::writeSymbols(size_t offset, size_t length, istringstr
           return RESULT_ERR_EOF;  // incomplete
         }
         if (!hasFlag(REQ) && token == NULL_VALUE) {
+          if (combined && hadValue) {
+            return RESULT_ERR_INVALID_NUM;  // single value: either all parts are undefined or none
+          }
+          hadNull = true;
           value = m_replacement;
           break;
         }
+        if (combined && hadNull) {
+          return RESULT_ERR_INVALID_NUM;  // single value: either all parts are undefined or none
+        }
+        hadValue = true;
         value = parseInt(token.c_str(), 10, 0, 2099, &result);
         if (result != RESULT_OK) {
           return result;  // invalid date part
@@ -593,6 +603,10 @@ result_t DateTimeDataType::writeSymbols(size_t offset, size_t length, istringstr
           return RESULT_ERR_EOF;  // incomplete
         }
         if (!hasFlag(REQ) && token == NULL_VALUE) {
+          if (combined && hadValue) {
+            return RESULT_ERR_INVALID_NUM;  // single value: either all parts are undefined or none
+          }
+          hadNull = true;
           value = m_replacement;
           if (length == 1) {  // truncated time
             if (i == 0) {
@@ -606,12 +620,19 @@ result_t DateTimeDataType::writeSymbols(size_t offset, size_t length, istringstr
           }
           break;
         }
+        if (combined && hadNull) {
+          return RESULT_ERR_INVALID_NUM;  // single value: either all parts are undefined or none
+        }
+        hadValue = true;
         value = parseInt(token.c_str(), 10, 0, 59, &result);
         if (result != RESULT_OK) {
           return result;  // invalid time part
         }
+        if (i == (m_hasDate ? 2 : 0)) {
+          hour = value;
+        }
         if ((i == (m_hasDate ? 2 : 0) && value > 24)
-        || (i > (m_hasDate ? 2 : 0) && (last == 24 && value > 0) )) {
+        || (i > (m_hasDate ? 2 : 0) && (hour == 24 && value > 0) )) {
           return RESULT_ERR_OUT_OF_RANGE;  // invalid time part
         }
         if (hasFlag(SPE)) {  // minutes since midnight
